@@ -322,11 +322,21 @@ def sinks_of_path(p, param_types, F=None):
                 llo, lhi, tl = ivx.of(ln, 'usize')
                 hazard = not (ihi < llo)
                 # relational guard: idx < len asserted on the path
+                from . import affine
+
+                def same_len(x):
+                    return x == ln or (x[0] == 'len' and ln[0] == 'len' and affine.canon_coll(x) == affine.canon_coll(ln)) or \
+                        affine.canon_coll(x) == affine.canon_coll(ln)
                 for c, v in ivx.cons:
-                    if c[0] == 'bin' and c[1] == 'Lt' and c[2] == idx and (v != 0 if isinstance(v, int) else True):
-                        from . import affine
-                        if affine.canon_coll(c[3]) == affine.canon_coll(ln) or c[3] == ln:
-                            hazard = False
+                    if c[0] != 'bin' or c[1] not in ('Lt', 'Ge', 'Gt', 'Le'):
+                        continue
+                    truth = (v != 0) if isinstance(v, int) else True
+                    # idx < len in any of its four spellings
+                    if (c[1] == 'Lt' and truth and c[2] == idx and same_len(c[3])) or \
+                            (c[1] == 'Ge' and not truth and c[2] == idx and same_len(c[3])) or \
+                            (c[1] == 'Gt' and truth and c[3] == idx and same_len(c[2])) or \
+                            (c[1] == 'Le' and not truth and c[3] == idx and same_len(c[2])):
+                        hazard = False
                 sk = Sink('index', fn, 'index', "[%s] of len %s" % (describe(idx, 50), describe(ln, 50)), site,
                           "index in [%s, %s], length in [%s, %s]" % (fmt(ilo), fmt(ihi), fmt(llo), fmt(lhi)), hazard, ti or tl)
                 sk.keyrole = "idx " + "+".join(leaves(idx)) + " len " + "+".join(leaves(ln))
